@@ -19,11 +19,13 @@ PLAN = {
         "contracts": ["contracts.io_buffer"],
     },
     "C01": {
-        "level": "exploration",
+        "level": "proof",
+        "contracts": ["contracts.fuzz"],
         "bounded": ["bounded.c01"],
     },
     "C16": {
         "level": "exploration",
+        "contracts": ["contracts.fuzz"],
         "bounded": ["bounded.c16"],
     },
     "C15": {
@@ -122,19 +124,35 @@ MANIFEST_TEXT = {
         "technique": "contract-based deductive verification (string theory, ghost binding level) + bounded round-trip check",
     },
     "C01": {
-        "text": "Bounded stand-in: every tree returned by Grammar.fuzz (node budgets 1/5/50) and by Fandango.fuzz (evolutionary "
-                "search with repair, crossover, mutation; generators) over the shared spec family and search-heavy specs is "
-                "checked by an independent derivation checker written against the grammar IR (children spell out one expansion "
-                "of the rule, repetition counts within bounds).",
-        "note": "no contract-level proof of the fuzz() family / replace_multiple yet; bounded over specs, budgets, seeds.",
-        "technique": "bounded run-time contract check of the real pipeline against an independent derivation checker",
+        "text": "PROOF for the grammar-fuzzing core, BOUNDED for the search operators. Proved on the real source, for all grammars, "
+                "budgets and random choices: every fuzz() of language/grammar/nodes (Concatenation, Alternative, Repetition incl. "
+                "{n,} with the global cap, Plus, Option, TerminalNode for literals / str regexes / bytes regexes, NonTerminalNode for "
+                "plain and generator rules) appends to the parent exactly a derivation of its node -- Derives(node, appended "
+                "children), an inductive predicate whose introduction rules are the definition of 'children spell out one expansion, "
+                "repetition counts within bounds' -- and Grammar.fuzz returns the detached derivation of the start symbol. Each "
+                "function is checked against the callee's contract only (structural induction on call depth, partial correctness). "
+                "Bounded half (not counted as proved): trees returned by Grammar.fuzz and by Fandango.fuzz (evolutionary search, "
+                "repair, crossover, mutation, generators) over the spec family are checked by an independent derivation checker.",
+        "note": "precondition: the Gmutator probabilities of the nodes' settings are 0 (default; positive values deliberately "
+                "produce non-derivations); assumed: exrex.getone returns a match, Grammar.generate / is_use_generator / "
+                "generator_dependencies / __getitem__ / __contains__, NonTerminalNode(...) construction, set_all_read_only; float "
+                "budgets abstracted to unconstrained reals (no NaN); replace_multiple, crossover, mutation, repetition repair "
+                "are covered by the bounded half only; termination of the recursion not claimed.",
+        "technique": "contract-based deductive verification: own VC generator over the real source (sequence theory, loop invariants, "
+                     "inductive derivation predicate), z3+cvc5; plus a bounded run-time contract check of the search pipeline",
     },
     "C16": {
-        "text": "Bounded stand-in: in every tree emitted by the search for 7 generator specs (constant, random, one and two "
+        "text": "Proved on the real source (generator branch of NonTerminalNode.fuzz, for all grammars and budgets): the child "
+                "appended for a generator rule IS the tree returned by grammar.generate(symbol, parameters), the parameters being "
+                "exactly one fuzzed derivation per generator dependency in iteration order; its children are marked read-only and it "
+                "carries the node's parties. The rest of C16 (regeneration when arguments change, sources after parsing/copying, "
+                "search operators) is a bounded stand-in: in every tree emitted by the search for 7 generator specs (constant, random, one and two "
                 "arguments, nested, next to constraints and equality repairs) each generator-defined node carries a value the "
                 "generator returns for the argument values recorded in the node's sources, and its children are read-only.",
-        "note": "the oracle recomputes the known generator functions of the specs; bounded over specs and seeds; no proof yet.",
-        "technique": "bounded run-time contract check with a recomputing oracle",
+        "note": "category stays exploration: only the generator branch of NonTerminalNode.fuzz is under a verified contract "
+                "(Grammar.generate, is_use_generator, generator_dependencies, set_all_read_only assumed); the oracle of the bounded "
+                "half recomputes the known generator functions of the specs; bounded over specs and seeds.",
+        "technique": "contract-based deductive verification of NonTerminalNode.fuzz (generator branch) + bounded run-time contract check with a recomputing oracle",
     },
     "C04": {
         "text": "Bounded stand-in, not a proof: the postcondition of Grammar.parse_forest / Fandango.parse (every yielded tree is a "
